@@ -3,7 +3,8 @@
 From Coq Require Import List NArith ZArith Bool.
 Import ListNotations.
 Require Import Celma.Common.Res Celma.ArgH.Key Celma.ArgH.Table Celma.ArgH.TableProofs Celma.ArgH.Lex
-               Celma.ArgH.Handler Celma.ArgH.Groups Celma.ArgH.GroupsProofs.
+               Celma.ArgH.Handler Celma.ArgH.Spell Celma.ArgH.Groups Celma.ArgH.GroupsProofs
+               Celma.ArgH.GenSim Celma.ArgH.GroupsSim.
 
 (** Each word is handled by exactly the handler that defines its key: when
     the members before [c] answer "unknown" and [c] consumes the element, the
@@ -72,6 +73,69 @@ Theorem C08_free_value_routing :
               map (fun s => map val (arts s)) ss = [[VStr [50%N]]; [VInts [1%Z]]]).
 Proof. exact group_free_value_order. Qed.
 Print Assumptions C08_free_value_routing.
+
+(** Whole-line form.  Names in a group are pairs (member, index); a word
+    belongs to the first member whose table resolves it.  For EVERY group
+    (any number of members, any definitions, checks, constraints), every
+    abstract line [gus] of group uses and every legal spelling [ws] of it
+    ([gspell_grp]: long/short keys, abbreviations, grouped flags, values glued,
+    behind '=' or as the next word): if the group evaluation returns normally
+    then each member handler, evaluating alone exactly its own uses in line
+    order ([proj m gus]), accepts them, passes its complete end-of-line checks
+    and ends with the same destinations, pending constraints and
+    handler-constraint states as inside the group. *)
+Theorem C08_group_is_members_on_their_parts :
+  forall cs initss gus ws ss',
+    all_fixed cs -> length initss = length cs -> gspell_grp cs gus ws ->
+    eval_group false false cs initss ws = Ok ss' ->
+    forall m, m < length cs ->
+      exists sm, fold_uses (member cs m) (init_state (member cs m) (nth m initss [])) false (proj m gus) = Ok sm /\
+                 final_checks (member cs m) sm = Ok tt /\
+                 forget_last sm = forget_last (nth m ss' st0).
+Proof. exact group_projection. Qed.
+Print Assumptions C08_group_is_members_on_their_parts.
+
+(** the same against Handler::evalArguments of the member alone, on any legal
+    spelling of its part of the line *)
+Theorem C08_group_member_standalone :
+  forall cs initss gus ws ss',
+    all_fixed cs -> length initss = length cs -> gspell_grp cs gus ws ->
+    eval_group false false cs initss ws = Ok ss' ->
+    forall m wsm, m < length cs -> spell (member cs m) (proj m gus) wsm ->
+      exists sm, eval_arguments (member cs m) (nth m initss []) [] None wsm = Ok sm /\
+                 arts sm = arts (nth m ss' st0) /\ pend sm = pend (nth m ss' st0) /\
+                 gsts sm = gsts (nth m ss' st0).
+Proof. exact group_member_standalone. Qed.
+Print Assumptions C08_group_member_standalone.
+
+(** and conversely: a line whose parts the members accept (including their
+    end-of-line checks) is accepted by the group *)
+Theorem C08_group_accepts_what_members_accept :
+  forall cs initss gus ws,
+    cs <> [] -> all_fixed cs -> length initss = length cs -> gspell_grp cs gus ws ->
+    (forall m, m < length cs ->
+       exists sm, fold_uses (member cs m) (init_state (member cs m) (nth m initss [])) false (proj m gus) = Ok sm /\
+                  final_checks (member cs m) sm = Ok tt) ->
+    exists ss', eval_group false false cs initss ws = Ok ss'.
+Proof. exact group_accepts. Qed.
+Print Assumptions C08_group_accepts_what_members_accept.
+
+(** Non-vacuity: group grp1 (member a: -l requires -r, -r; member b: -x), the
+    line "-lx -r" is a legal spelling of [l@a; x@b; r@a]. *)
+Example C08_nonvacuous_spelling :
+  all_fixed grp1 /\
+  gspell_grp grp1 [GFlag (0, 0); GFlag (1, 0); GFlag (0, 1)] [[45; 108; 120]; [45; 114]]%N /\
+  proj 0 [GFlag (0, 0); GFlag (1, 0); GFlag (0, 1)] = [UFlag 0; UFlag 1] /\
+  is_ok (eval_group false false grp1 grp1_inits [[45; 108; 120]; [45; 114]]%N) = true.
+Proof.
+  split; [repeat constructor|]. split; [|split; vm_compute; reflexivity].
+  apply (gsp_flags gname (glname grp1) (gsname grp1) (gtnone grp1) (gtreq grp1)
+           [((0, 0), 108%N); ((1, 0), 120%N)] [GFlag (0, 1)] [[45; 114]%N]); [discriminate| |].
+  - repeat constructor; cbn; try discriminate; vm_compute; auto.
+  - apply (gsp_flags gname (glname grp1) (gsname grp1) (gtnone grp1) (gtreq grp1)
+             [((0, 1), 114%N)] [] []); [discriminate| |constructor].
+    repeat constructor; cbn; try discriminate; vm_compute; auto.
+Qed.
 
 (** Known finding, recorded in known_findings.json (group-abbrev-per-member):
     the full statement "group evaluation = single handler owning all
